@@ -2886,10 +2886,15 @@ void Analyser::AnalyserImpl::analyseModel(const ModelPtr &model)
 
         if (internalEquation->mType == AnalyserInternalEquation::Type::NLA) {
             for (const auto &unknownVariable : internalEquation->mUnknownVariables) {
-                if (unknownVariable->mIsExternal
-                    && (std::find(addedExternalVariables.begin(), addedExternalVariables.end(), unknownVariable) == addedExternalVariables.end())) {
-                    addedExternalVariables.push_back(unknownVariable);
-                    addedInternalEquations.push_back(AnalyserInternalEquation::create(unknownVariable));
+                if (unknownVariable->mIsExternal) {
+                    if (std::find(addedExternalVariables.begin(), addedExternalVariables.end(), unknownVariable) == addedExternalVariables.end()) {
+                        addedExternalVariables.push_back(unknownVariable);
+                        addedInternalEquations.push_back(AnalyserInternalEquation::create(unknownVariable));
+                    }
+
+                    if (std::find(internalEquation->mDependencies.begin(), internalEquation->mDependencies.end(), unknownVariable->mVariable) == internalEquation->mDependencies.end()) {
+                        internalEquation->mDependencies.push_back(unknownVariable->mVariable);
+                    }
                 }
             }
 
